@@ -44,11 +44,13 @@ def interval_goals(chk, samples):
         return f"({f.numerator} / {f.denominator})"
     for i, (alpha, wc, tau, eta, corr) in enumerate(samples):
         x = f"({q(wc)} * {q(tau)})"
-        lines.append(f"Goal Rabs ({q(alpha)} * ln (1 + {x} * {x}) - {q(eta.real)}) <= 1 / 1000000. Proof. interval. Qed.")
-        lines.append(f"Goal Rabs (2 * {q(alpha)} * (atan {x} - {x}) - {q(eta.imag)}) <= 1 / 1000000. Proof. interval. Qed.")
+        tol = q(1e-6 * max(1.0, abs(eta)))          # the tolerance of the search oracle: 1e-6, relative for values above one
+        lines.append(f"Goal Rabs ({q(alpha)} * ln (1 + {x} * {x}) - {q(eta.real)}) <= {tol}. Proof. interval. Qed.")
+        lines.append(f"Goal Rabs (2 * {q(alpha)} * (atan {x} - {x}) - {q(eta.imag)}) <= {tol}. Proof. interval. Qed.")
         den = f"((1 + {x} * {x}) * (1 + {x} * {x}))"
-        lines.append(f"Goal Rabs (2 * {q(alpha)} * {q(wc)} * {q(wc)} * (1 - {x} * {x}) / {den} - {q(corr.real)}) <= 1 / 100000. Proof. interval. Qed.")
-        lines.append(f"Goal Rabs (2 * {q(alpha)} * {q(wc)} * {q(wc)} * (- 2 * {x}) / {den} - {q(corr.imag)}) <= 1 / 100000. Proof. interval. Qed.")
+        tolc = q(1e-5 * max(1.0, 2 * alpha * wc * wc))          # 1e-5, relative to C(0) = 2 alpha wc^2 where that is above one
+        lines.append(f"Goal Rabs (2 * {q(alpha)} * {q(wc)} * {q(wc)} * (1 - {x} * {x}) / {den} - {q(corr.real)}) <= {tolc}. Proof. interval. Qed.")
+        lines.append(f"Goal Rabs (2 * {q(alpha)} * {q(wc)} * {q(wc)} * (- 2 * {x}) / {den} - {q(corr.imag)}) <= {tolc}. Proof. interval. Qed.")
     os.makedirs(CASES, exist_ok=True)
     path = os.path.join(CASES, "C12_interval.v")
     open(path, "w").write("\n".join(lines) + "\n")
@@ -105,6 +107,9 @@ def run(chk):
         if it in (1, 2):
             # every run: long times (many inverse cut-offs, and long in absolute units with a slow bath)
             alpha, wc, tau = [(0.1, 1.0, 60.0), (0.3, 0.05, 150.0)][it - 1]
+        if it in (3, 4):
+            # every run: hundreds of oscillations of exp(-i w tau) below the cut-off (cut-off x time = 200, 150)
+            alpha, wc, tau = [(0.1, 10.0, 20.0), (0.05, 10.0, 15.0)][it - 3]
         corr = oqupy.PowerLawSD(alpha=alpha, zeta=1, cutoff=wc, cutoff_type="exponential", temperature=0.0)
         samples.append((alpha, wc, tau, complex(corr.eta_function(tau)), complex(corr.correlation(tau))))
         # the same closed form as a search oracle on the implementation (the interval goals make it a kernel-checked statement)
